@@ -161,7 +161,18 @@ func genChunks(rng *rand.Rand, n int) []*filer_pb.FileChunk {
 
 var hardLinkSeq uint64
 
-func genEntry(rng *rand.Rand, path util.FullPath, nchunks int) *filer.Entry {
+// newHardLinkId makes a fresh id the way the mount does (16 random bytes + marker), made unique by a sequence number.
+func newHardLinkId(rng *rand.Rand) []byte {
+	hardLinkSeq++
+	id := make([]byte, 16)
+	rng.Read(id)
+	if rng.Intn(4) == 0 {
+		copy(id, gzMagic)
+	}
+	return append(append(id, byte(hardLinkSeq), byte(hardLinkSeq>>8), byte(hardLinkSeq>>16)), 0x01)
+}
+
+func genEntry(rng *rand.Rand, path util.FullPath, nchunks int, hlID []byte, hlCounter int32) *filer.Entry {
 	e := &filer.Entry{FullPath: path}
 	e.Mtime = time.Unix(secs[rng.Intn(len(secs))], 0)
 	e.Crtime = time.Unix(secs[rng.Intn(len(secs))], 0)
@@ -203,15 +214,9 @@ func genEntry(rng *rand.Rand, path util.FullPath, nchunks int) *filer.Entry {
 		}
 	}
 	e.Chunks = genChunks(rng, nchunks)
-	if rng.Intn(6) == 0 {
-		hardLinkSeq++
-		id := make([]byte, 16)
-		rng.Read(id)
-		if rng.Intn(4) == 0 {
-			copy(id, gzMagic)
-		}
-		e.HardLinkId = append(append(id, byte(hardLinkSeq), byte(hardLinkSeq>>8), byte(hardLinkSeq>>16)), 0x01)
-		e.HardLinkCounter = int32(1 + rng.Intn(3))
+	if hlID != nil {
+		e.HardLinkId = append(filer.HardLinkId(nil), hlID...)
+		e.HardLinkCounter = hlCounter
 	}
 	if rng.Intn(3) == 0 {
 		e.Content = blob(rng, 4096)
@@ -298,7 +303,12 @@ func strsEqual(a, b []string) bool {
 // compare returns "" when got (as returned by the code under test) equals want field by
 // field, else the class of the first difference and a description. Times are compared at
 // second granularity (the stored type is seconds).
-func compare(got *filer.Entry, want *filer.Entry) (field, msg string) {
+// viaWrapper: the entry came through FilerStoreWrapper (lookup or any listing). There the
+// tree fills the FileId / SourceFileId strings on every path (maybeReadHardLink, then
+// AfterEntryDeserialization), and that string is what a client reads from file_id: it has to be
+// there and equal to what was written. Without the wrapper (raw codec) an id given in object
+// form stays in object form and is compared in rendered form.
+func compare(got *filer.Entry, want *filer.Entry, viaWrapper bool) (field, msg string) {
 	if got == nil {
 		return "nil-entry", "nil entry returned"
 	}
@@ -311,11 +321,16 @@ func compare(got *filer.Entry, want *filer.Entry) (field, msg string) {
 	for i, gc := range got.Chunks {
 		w := want.Chunks[i]
 		c := proto.Clone(gc).(*filer_pb.FileChunk)
-		// The id may come back in string form, in object form, or both (FindEntry fills both,
-		// a native prefixed listing only the object form); every reader in the tree goes through
-		// GetFileIdString(), so that is "the file id that comes back".
 		if c.FileId == "" && c.Fid != nil {
 			objectFormOnly++
+		}
+		if viaWrapper {
+			if c.FileId == "" && w.FileId != "" {
+				return "fileid-string-empty", fmt.Sprintf("chunk %d comes back with an empty file id string, written %q (fid object %v)", i, w.FileId, c.Fid)
+			}
+			if c.SourceFileId == "" && w.SourceFileId != "" {
+				return "source-fileid-string-empty", fmt.Sprintf("chunk %d comes back with an empty source file id string, written %q (object %v)", i, w.SourceFileId, c.SourceFid)
+			}
 		}
 		id := c.FileId
 		if id == "" && c.Fid != nil {
@@ -390,10 +405,21 @@ func compare(got *filer.Entry, want *filer.Entry) (field, msg string) {
 
 // ---------------------------------------------------------------- driver
 
+// hlGroup is one hard-link id and the names that carry it. Every write through one of the
+// names replaces the shared record, so every name reads back as the last such write.
+type hlGroup struct {
+	id      []byte
+	want    *filer.Entry
+	names   []util.FullPath
+	nchunks int
+	opIndex int
+}
+
 type rec struct {
 	want    *filer.Entry
 	nchunks int
 	hl      bool
+	group   *hlGroup
 	opIndex int
 }
 
@@ -416,6 +442,17 @@ func (w *world) open() {
 	w.store = filer.NewFilerStoreWrapper(s)
 }
 
+// wantOf is what the name must read back as: its own last write, or for a hard-linked name the
+// last write through any name of its link id (with this name's path).
+func (w *world) wantOf(path util.FullPath, rc *rec) *filer.Entry {
+	if rc.group == nil {
+		return rc.want
+	}
+	c := *rc.group.want
+	c.FullPath = path
+	return &c
+}
+
 func (w *world) viol(op, class string, rc *rec, path util.FullPath, msg string) {
 	sig := lib.Sig{"op": op, "class": class, "store": w.kind}
 	d := map[string]interface{}{"store": w.kind, "op_index": w.ops, "seed": w.r.Seed, "tier": w.r.Tier, "path": string(path), "msg": msg}
@@ -423,6 +460,12 @@ func (w *world) viol(op, class string, rc *rec, path util.FullPath, msg string) 
 		sig["chunks"] = chunkClassOf(rc.nchunks)
 		sig["hardlink"] = fmt.Sprint(rc.hl)
 		d["written_at_op"] = rc.opIndex
+		if rc.group != nil {
+			sig["chunks"] = chunkClassOf(rc.group.nchunks)
+			sig["names_of_link"] = fmt.Sprint(len(rc.group.names) > 1)
+			d["written_at_op"] = rc.group.opIndex
+			d["names_of_link"] = rc.group.names
+		}
 	}
 	w.r.Violation(sig, d)
 }
@@ -438,7 +481,7 @@ func (w *world) checkFind(op string, path util.FullPath, rc *rec) {
 		w.viol(op, class, rc, path, "FindEntry: "+err.Error())
 		return
 	}
-	if f, msg := compare(got, rc.want); f != "" {
+	if f, msg := compare(got, w.wantOf(path, rc), true); f != "" {
 		w.viol(op, "differs-"+f, rc, path, msg)
 	}
 }
@@ -487,7 +530,7 @@ func (w *world) checkList(dir util.FullPath, mode string) {
 		}
 		w.r.Eval(1)
 		w.r.Count("entries_compared_in_listings", 1)
-		if f, msg := compare(got[gi], rc.want); f != "" {
+		if f, msg := compare(got[gi], w.wantOf(p, rc), true); f != "" {
 			w.viol(mode, "differs-"+f, rc, p, msg)
 			return
 		}
@@ -512,7 +555,7 @@ func (w *world) checkCodec(e *filer.Entry, nchunks int, withGzip bool) {
 		w.r.Violation(lib.Sig{"op": "codec", "class": "decode-error"}, map[string]interface{}{"op_index": w.ops, "store": w.kind, "seed": w.r.Seed, "tier": w.r.Tier, "msg": err.Error()})
 		return
 	}
-	if f, msg := compare(d, want); f != "" {
+	if f, msg := compare(d, want, false); f != "" {
 		w.r.Violation(lib.Sig{"op": "codec", "class": "differs-" + f, "chunks": chunkClassOf(nchunks)}, map[string]interface{}{"op_index": w.ops, "store": w.kind, "seed": w.r.Seed, "tier": w.r.Tier, "msg": "Decode(Encode(entry)) differs: " + msg})
 	}
 	// compression helpers on what the stores feed them: an encoded entry with > 50 chunks
@@ -541,6 +584,7 @@ func (w *world) runStore(nops int, stopAt int) {
 	w.open()
 	w.model = make(map[util.FullPath]*rec)
 	var paths []util.FullPath
+	var groups []*hlGroup
 	nameSeq := 0
 	for w.ops = 0; w.ops < nops; w.ops++ {
 		if stopAt >= 0 && w.ops > stopAt {
@@ -562,7 +606,40 @@ func (w *world) runStore(nops int, stopAt int) {
 			path = dirs[rng.Intn(len(dirs))].Child(name)
 		}
 		n := pickChunkCount(rng)
-		e := genEntry(rng, path, n)
+		// hard links: an update of a linked name keeps its id (the write goes to the shared record);
+		// 1 in 6 new names starts a new link id, 1 in 6 joins an existing id as a further name
+		var group *hlGroup
+		joined := false
+		if update {
+			group = w.model[path].group
+			if group == nil && rng.Intn(10) == 0 {
+				group = &hlGroup{id: newHardLinkId(rng)}
+			}
+		} else {
+			switch x := rng.Intn(6); {
+			case x == 0 && len(groups) > 0:
+				group = groups[rng.Intn(len(groups))]
+				joined = true
+				if len(group.names) >= 4 {
+					group, joined = &hlGroup{id: newHardLinkId(rng)}, false
+				}
+			case x <= 1:
+				group = &hlGroup{id: newHardLinkId(rng)}
+			}
+		}
+		var hlID []byte
+		var hlCounter int32
+		if group != nil {
+			hlID = group.id
+			hlCounter = int32(len(group.names) + 1)
+			if update {
+				hlCounter = int32(len(group.names) + rng.Intn(2))
+			}
+			if n == 0 && rng.Intn(4) != 0 {
+				n = 1 + rng.Intn(5) // a linked file normally has chunks
+			}
+		}
+		e := genEntry(rng, path, n, hlID, hlCounter)
 		r.Case(map[string]interface{}{"store": w.kind, "op_index": w.ops, "update": update, "path": string(path), "chunks": n})
 		w.checkCodec(copyEntry(e), n, rng.Intn(3) == 0)
 		want := expected(e, true)
@@ -580,11 +657,30 @@ func (w *world) runStore(nops int, stopAt int) {
 			r.Note("last_insert_refusal", err.Error())
 			continue
 		}
-		rc := &rec{want: want, nchunks: n, hl: len(e.HardLinkId) > 0, opIndex: w.ops}
+		rc := &rec{want: want, nchunks: n, hl: group != nil, group: group, opIndex: w.ops}
 		if _, ok := w.model[path]; !ok {
 			paths = append(paths, path)
 		}
 		w.model[path] = rc
+		if group != nil {
+			if len(group.names) == 0 {
+				groups = append(groups, group)
+			}
+			known := false
+			for _, p := range group.names {
+				known = known || p == path
+			}
+			if !known {
+				group.names = append(group.names, path)
+			}
+			group.want, group.nchunks, group.opIndex = want, n, w.ops
+			if joined {
+				r.Count("names_added_to_existing_link", 1)
+			}
+			if n > 0 {
+				r.Count("hardlinked_writes_with_chunks", 1)
+			}
+		}
 		if update {
 			r.Count("updates", 1)
 		} else {
@@ -600,6 +696,15 @@ func (w *world) runStore(nops int, stopAt int) {
 				"extended_keys": len(e.Extended), "content_bytes": len(e.Content), "remote": e.Remote != nil, "mime": e.Mime, "mode": e.Mode.String()})
 		}
 		w.checkFind("find", path, rc)
+		if group != nil && len(group.names) > 1 {
+			// every other name of the link id now reads back as this write
+			for _, p := range group.names {
+				if p != path {
+					w.checkFind("find-other-name-of-link", p, w.model[p])
+					r.Count("lookups_of_other_names_of_a_link", 1)
+				}
+			}
+		}
 		// an older entry is still what it was
 		if len(paths) > 1 {
 			p := paths[rng.Intn(len(paths))]
@@ -646,11 +751,11 @@ func main() {
 		defer pprof.StopCPUProfile()
 	}
 	r := lib.Start("C24", "exploration")
-	r.SetRule("per store (leveldb, leveldb2, leveldb3, each through the real FilerStoreWrapper): a seeded sequence of InsertEntry (4/5) / UpdateEntry of an existing path (1/5) with random entries: every attribute field (times at second granularity incl. 0, -1, >2^31; arbitrary mode bits; octet-stream mime), chunk counts from {0,1,2-5,6-30,49,50} (7/8) or {51,52-80,100-120,200} (1/8: the store gzips these) with canonical file ids (1/5/8-byte keys, zero-leading cookies, ids given in object form), source ids, cipher keys, etags, flags; extended values / content / md5 / hard-link ids that are empty, random, gzip-looking or real gzip; hard-link fields (unique id each); remote info; 5 directories (two under /buckets/, one with space and non-ASCII). After every write: FindEntry of it and of a random older entry; every 97 ops and at the end: full, prefixed and 7-per-page listings compared entry by entry; then the store is reopened and everything is looked up and listed again. distinct = (store, op index, chunk count, hard link, update, #extended, content length); non-trivial = every successful insert/update")
+	r.SetRule("per store (leveldb, leveldb2, leveldb3, each through the real FilerStoreWrapper): a seeded sequence of InsertEntry (4/5) / UpdateEntry of an existing path (1/5) with random entries: every attribute field (times at second granularity incl. 0, -1, >2^31; arbitrary mode bits; octet-stream mime), chunk counts from {0,1,2-5,6-30,49,50} (7/8) or {51,52-80,100-120,200} (1/8: the store gzips these) with canonical file ids (1/5/8-byte keys, zero-leading cookies, ids given in object form), source ids, cipher keys, etags, flags; extended values / content / md5 / hard-link ids that are empty, random, gzip-looking or real gzip; hard-link ids together with chunk lists (1 in 3 new names is hard-linked; a link id gets up to 4 names; an update of a linked name keeps its id), remote info; 5 directories (two under /buckets/, one with space and non-ASCII). After every write: FindEntry of it, of every other name of its link id and of a random older entry; every 97 ops and at the end: full, prefixed and 7-per-page listings compared entry by entry; then the store is reopened and everything is looked up and listed again. distinct = (store, op index, chunk count, hard link, update, #extended, content length); non-trivial = every successful insert/update")
 	r.Assume("times are generated at second granularity (the stored type is seconds); Mime application/octet-stream is modelled as the empty mime the store wrapper turns it into")
-	r.Assume("chunk file ids are generated in canonical form (needle.FileId.String()); a chunk's id as read back is what FileChunk.GetFileIdString() yields (string form, or the Fid object form rendered canonically); when both forms are present they must agree")
+	r.Assume("chunk file ids are generated in canonical form (needle.FileId.String()); through the store wrapper (lookup and every listing) the FileId / SourceFileId strings must be filled and equal to what was written, and agree with the Fid objects; in the raw codec an id given in object form is compared in rendered form")
 	r.Assume("an insert the store refuses with an error is not a stored entry (counted, not judged)")
-	r.Assume("hard-link ids are unique per entry here; sharing one id between names is C21's subject")
+	r.Assume("names sharing a hard-link id are only ever written with that id (no re-link to another id, no unlink, no delete: counter bookkeeping is C21's subject); every name of an id must read back as the last write through any of its names")
 
 	stopAt, only := -1, ""
 	if r.Replay != "" {
@@ -698,8 +803,8 @@ func main() {
 	}
 	for _, kind := range lib.EmbeddedFilerStoreKinds {
 		if r.Counter(kind+".inserts") == 0 || r.Counter(kind+".updates") == 0 || r.Counter(kind+".entries_chunks_51+") == 0 ||
-			r.Counter(kind+".entries_with_hardlink") == 0 || r.Counter(kind+".entries_compared_in_listings") == 0 || r.Counter(kind+".reopens") == 0 {
-			r.Inconclusive("store " + kind + ": a class of cases was never exercised (inserts/updates/>50 chunks/hard link/listing/reopen)")
+			r.Counter(kind+".entries_with_hardlink") == 0 || r.Counter(kind+".hardlinked_writes_with_chunks") == 0 || r.Counter(kind+".lookups_of_other_names_of_a_link") == 0 || r.Counter(kind+".entries_compared_in_listings") == 0 || r.Counter(kind+".reopens") == 0 {
+			r.Inconclusive("store " + kind + ": a class of cases was never exercised (inserts/updates/>50 chunks/hard link with chunks/shared link id/listing/reopen)")
 		}
 	}
 	if sum("encodings_actually_gzipped") == 0 {
